@@ -25,7 +25,7 @@ NSets(name, c, k, f1) ==
     IF name # "txfirst" THEN B2I(Plan(believed[k], tracked[c], TRUE).send)
     ELSE LET p == Plan(believed[k], tracked[c], FALSE)
          IN IF p.send /\ f1 # "none" THEN 1
-            ELSE LET b1 == IF p.send THEN [p.b EXCEPT !.unused = {}] ELSE p.b
+            ELSE LET b1 == IF p.send THEN Written(p.b, TRUE) ELSE p.b
                  IN B2I(p.send) + B2I(Plan(b1, tracked[c], TRUE).send)
 RejNth(name, c, k, f1, f2) ==
     IF f1 # "none" THEN 1
